@@ -19,7 +19,7 @@ META_KEYS = DC_KEYS + ['status', 'note', 'confidenceScore']
 SPECIALS = ['quo"te', "ap'os", 'a<b', 'a&b', 'a>b', 'tab\there', 'nl\nhere', 'é',
             '\U0001F600 grin', 'שלום', '  lead', 'trail  ', 'dbl  sp',
             ']]>', '&amp;', '&#65;', '%s', "';--", '<!--c-->', 'été', 'a\\b',
-            '猫', 'A:B', '*', '?']
+            '猫', 'A:B', '*', '?', '¿qué?', '«ï»', 'ＡＢ\ufeffｃ']
 PLAIN = ['x', 'Ab c', 'foo', 'bar baz', 'lorem', 'ipsum dolor', 'N', 'v2', 'alpha', 'beta']
 
 VOCAB = ['cat', 'Cat', 'CAT', 'chat', 'résumé', 'resume', 'Resume', 'dog', 'Hund',
@@ -615,7 +615,7 @@ def generate(rng: random.Random, profile: Profile | None = None) -> dict:
         if g.chance(0.3):
             cols = [cols[0]] + list(reversed(cols[1:]))
         ili_files.append({'name': 'ili%d' % i, 'upper': g.chance(0.3), 'columns': cols,
-                          'rows': rows})
+                          'rows': rows, 'crlf': g.chance(0.2), 'extra_column': g.chance(0.2)})
     return {'profile': dict(p), 'lexicons': lexicons, 'order': order,
             'resources': resources, 'ili_files': ili_files}
 
